@@ -5,13 +5,17 @@ The table `KinModel.Gen.descriptors` (regenerated from the repository on every r
 -/
 namespace KinModel.Marshal
 
-/-- Go type class of a struct field: decides the zero value and what JSON `null` does. -/
-inductive TC | str | bool | uint | ptr | slice | map | nmap | iface | value | addProps | unknown
+/-- Go type class of a struct field: decides the zero value and what JSON `null` does.
+    `ptypes` = `*Types`: nil and the empty list both say "no type" (`Types.MarshalYAML` writes both as nil);
+    other pointers to slices (`*SecurityRequirements`, `*Servers`) are `ptr`: their empty list is a value. -/
+inductive TC | str | bool | uint | ptr | ptypes | slice | map | nmap | iface | value | addProps | unknown
   deriving DecidableEq, Repr, Inhabited
 
-/-- class of the condition guarding `m["k"] = x` in a map-building marshaller -/
+/-- class of the condition guarding `m["k"] = x` in a map-building marshaller.
+    `neNilLenNe0` = `x != nil && len(*x) != 0`;
+    `orEmpty` = `if x != nil { m[k] = x } else { m[k] = T{} }` (written always; a nil map is written as `{}`). -/
 inductive Guard
-  | always | neEmptyStr | isTrue | neZero | neNil | lenNe0 | addProps | unknown (txt : String)
+  | always | neEmptyStr | isTrue | neZero | neNil | lenNe0 | neNilLenNe0 | orEmpty | addProps | unknown (txt : String)
   deriving DecidableEq, Repr, Inhabited
 
 /-- what a field's value is, as far as the round trip is concerned -/
@@ -29,7 +33,10 @@ inductive Shape
   | unknown (txt : String)
   deriving DecidableEq, Repr, Inhabited
 
-inductive Template | struct | ref | maplike | alias
+/-- `namedMap`: a named map type whose `UnmarshalJSON` is `unmarshalStringMap(P)`; `special`: a hand-modelled
+    piece (`Types`, `AdditionalProperties`, the string-map helpers) whose source text is compared with the text the
+    model was written from -/
+inductive Template | struct | ref | maplike | alias | namedMap | special
   deriving DecidableEq, Repr, Inhabited
 
 structure Field where
